@@ -6,6 +6,7 @@ import Mathlib.Algebra.Order.Field.Basic
 import Mathlib.Tactic.Linarith
 import Mathlib.Analysis.Calculus.Deriv.Mul
 import Mathlib.Analysis.Calculus.Deriv.Add
+import RockitModel.Generated.RootTimes
 /-!
 # C02 — direct collocation constraints characterise the collocation polynomial
 -/
@@ -331,5 +332,20 @@ end feasible
 example : LP.eval (LP.basis [(0:ℚ), 1/3, 1] 1) (1/3) = 1 := by
   have := basis_delta [(0:ℚ), 1/3, 1] (by norm_num) 1 1 (by simp) (by simp)
   simpa using this
+
+
+/-! ### the collocation times as written in the source -/
+section source_tie
+
+/-- the loop of `DirectCollocation.add_constraints` that fills `self.tr` (regenerated from the source on every run): ONE such loop, over
+the control intervals, with the step length `(control_grid[k+1] − control_grid[k])/M` computed INSIDE it — the interval's own step — and
+the collocation time `integrator_grid[k][i] + dt·tau[j]`; that is the model's `rootTime` (`root_time`, by `rfl`) -/
+theorem source_root_times_as_expected :
+    Rockit.Generated.rootTimeDt = "(self.control_grid[k+1]-self.control_grid[k])/self.M" ∧
+    Rockit.Generated.rootTimeDtPerInterval = true ∧
+    Rockit.Generated.rootTimeFormula = "self.integrator_grid[k][i]+dt*self.tau[j]|for:k" ∧
+    Rockit.Generated.rootTimeLoops = 1 := by decide
+
+end source_tie
 
 end Rockit.C02
